@@ -70,6 +70,9 @@ def deviations(n):
         out.append({'symerr': [m]})
         out.append({'generr': [m]})
         out.append({'wrerr': [m]})
+        # a good module followed, in the same file, by one whose symbol table cannot be built (and the other way round)
+        out.append({'text': {m: 'twomods'}, 'symerr': [m + 'X']})
+        out.append({'text': {m: 'twomods'}, 'symerr': [m]})
         for idx in (0, 1):
             for ans in ('fresh', 'error', 'normal'):
                 s = [{'ans': {}}, {'ans': {}}]
